@@ -81,7 +81,7 @@ Proof.
       specialize (Hclean k' Hk'r Hold). rewrite Forall_forall in Hclean |- *. intros tr Htr.
       rewrite <- (Hclean tr Htr). apply get_kg_ext. rewrite Eg. apply bump_other. exact Hne.
   - left. fold tagged.
-    destruct (seq_delete_spec tagged (sk s) (sh s) k Hk) as [[Hin (s1 & E & Hk' & Eg)]|[_ E]];
+    destruct (seq_delete_spec tagged (sk s) (sh s) k Hk) as [[Hin (s1 & E & Hk' & Eg & _)]|[_ E]];
       rewrite E; eexists _, _; (split; [reflexivity|]).
     + split; [exact Hk'|]. cbn [sh trees sk]. rewrite Eg. split; [exact Hr|].
       intros k' Hk'r Hn. destruct (Z.eq_dec k' k) as [->|Hne].
@@ -182,7 +182,7 @@ Proof.
       * intros x. specialize (Hb x). specialize (Hgen x). lia.
       * intros tr Htr x v g Hl. specialize (Hent tr Htr x v g Hl). specialize (Hb x). lia.
   - fold tagged in Hs.
-    destruct (seq_delete_spec tagged (sk s) (sh s) k Hk) as [[_ (s1 & E & Hk' & Eg)]|[_ E]];
+    destruct (seq_delete_spec tagged (sk s) (sh s) k Hk) as [[_ (s1 & E & Hk' & Eg & _)]|[_ E]];
       rewrite E in Hs; injection Hs as <- <-; unfold ginv; cbn [sk sh trees].
     + split; [exact Hk'|]. split; [exact Hr|]. rewrite Eg.
       split; [intros x; specialize (Hgen x); lia|exact Hent].
